@@ -134,7 +134,7 @@ def override_value(ty_s, optional, pick):
             "i32": ["-7i32", "i32::MIN", "i32::MAX", "0i32"],
             "u32": ["7u32", "u32::MAX", "0u32", "2147483648u32"],
             "bool": ["true", "false"],
-            "f64": ["2.5f64", "f64::MAX"], "i64": ["-9i64"], "u64": ["9u64"]}.get(base, ["Default::default()"])
+            "f64": ["2.5f64", "f64::MAX", "0.1f64", "1e300f64", "-0.0f64"], "i64": ["-9i64"], "u64": ["9u64"]}.get(base, ["Default::default()"])
     e = vals[pick % len(vals)]
     if optional:
         return "None" if pick % 3 == 0 else "Some(%s)" % e
